@@ -61,8 +61,21 @@ def gen_case(rng, lay, tier):
         else:
             feed = [ts] if rng.random() < 0.7 else []
             ops.append({"op": "wait", "k": rng.randrange(1, ncons + 1), "feed": feed, "timeout": 0.1})
-    return {"lay": [list(x) for x in lay], "pcob": pcob, "cons": cons, "ops": ops, "nid": rng.choice([4, 1, 127]),
+    case = {"lay": [list(x) for x in lay], "pcob": pcob, "cons": cons, "ops": ops, "nid": rng.choice([4, 1, 127]),
             "via_read": rng.random() < 0.5, "objs": objs}
+    # (a second stream of random choices, so that the cases above stay what they were)
+    r2 = random.Random(json.dumps(case, sort_keys=True))
+    case["penabled"] = r2.random() < 0.7        # a producing map whose enabled flag was never set still transmits
+    txs = [j for j, op in enumerate(ops) if op["op"] == "tx"]
+    for j in sorted(r2.sample(txs, min(len(txs), 2)), reverse=True):
+        # one map is mapped anew right after a reception (maps with colliding COB-IDs got the same frame)
+        j2 = j + 1
+        while j2 < len(ops) and ops[j2]["op"] == "read" and r2.random() < 0.8:
+            j2 += 1
+        ops.insert(j2, {"op": "remap", "k": r2.randrange(1, ncons + 1)})
+        if r2.random() < 0.5:
+            ops.insert(j, {"op": "pen", "v": r2.random() < 0.5})
+    return case
 
 
 def main():
